@@ -48,7 +48,8 @@ type c13Unit struct {
 	ID       string
 	PidFile  string
 	mu       sync.Mutex
-	released bool  // a `released` reply was received
+	released bool  // a `released` reply was received and the files were seen gone
+	relPending bool
 	relSeq   int64 // logical time of that reply
 	cancSeq  int64 // logical time of a `cancelled` reply (0 = none)
 	subDone  int64 // logical time at which the submit exchange finished
@@ -301,21 +302,23 @@ func (h *c13Hist) releaseOp(u *c13Unit, force bool) {
 	if err != nil || !strings.Contains(reply, `"released"`) {
 		return
 	}
-	seq := h.tick()
 	u.mu.Lock()
-	first := !u.released
-	if first {
-		u.released = true
-		u.relSeq = seq
-	}
+	first := !u.released && !u.relPending
+	u.relPending = true
 	u.mu.Unlock()
 	if !first {
 		return
 	}
-	// a successful release removes the unit and its files
+	// A successful release removes the unit and its files. For a local unit this has happened when
+	// the reply is sent; for a started remote unit receptor replies once the remote side accepted the
+	// release and removes the local files when the remote unit is gone, so a bounded wait is allowed.
 	dir := filepath.Join(h.L.DataDir(), u.ID)
+	rounds := 25
+	if u.Remote {
+		rounds = 450
+	}
 	gone := false
-	for i := 0; i < 25; i++ {
+	for i := 0; i < rounds; i++ {
 		if _, err := os.Stat(dir); os.IsNotExist(err) {
 			gone = true
 			break
@@ -328,8 +331,18 @@ func (h *c13Hist) releaseOp(u *c13Unit, force bool) {
 		for _, e := range ents {
 			names = append(names, e.Name())
 		}
-		h.viol("release:dir-remains:"+cmd, fmt.Sprintf("unit %s (%s) was acknowledged as released (%s) but its directory still exists 5 s later with %v", u.ID, u.Kind, strings.TrimSpace(reply), names), nil)
+		kind := "local"
+		if u.Remote {
+			kind = "remote"
+		}
+		h.viol("release:dir-remains:"+cmd+":"+kind, fmt.Sprintf("unit %s (%s) was acknowledged as released (%s) but its directory still exists %d s later with %v", u.ID, u.Kind, strings.TrimSpace(reply), rounds/5, names), nil)
+		return
 	}
+	// from here on the unit must be unknown
+	u.mu.Lock()
+	u.released = true
+	u.relSeq = h.tick()
+	u.mu.Unlock()
 }
 
 func (h *c13Hist) resultsOp(u *c13Unit, rng *rand.Rand) {
